@@ -70,7 +70,11 @@ def forks(ir, include_invalid: bool):
                 first_site.setdefault(key, []).append(site)
                 stats["invocations"] += 1
                 x = rules[it.name]
-                if not memoised(x) and it.name not in stack and key not in expanded and len(stack) < 40:
+                # an unmemoised rule is evaluated every time; a memoised one the first time it is met at this position (a miss:
+                # its body runs and may evaluate unmemoised rules that are also reached another way), later meetings are hits.
+                # Only one memoised rule is looked through on a path: deeper ones are misses of *other* evaluations
+                through_memo = sum(1 for n in stack[1:] if memoised(rules[n]))
+                if it.name not in stack and key not in expanded and len(stack) < 40 and (not memoised(x) or through_memo == 0):
                     expanded.add(key)
                     expand(x, prefix, stack + (it.name,))
             elif isinstance(it, Group):
@@ -104,6 +108,10 @@ def forks(ir, include_invalid: bool):
                 continue
             path = reaches_unmemoised(xname, R.name)
             if path is None:
+                continue
+            # the repeated evaluation multiplies only if the recursion through X meets no memo barrier at all: X lies on a
+            # cycle of unmemoised rules (a cycle that passes a memoised rule is cut there: its second evaluation is a hit)
+            if reaches_unmemoised(xname, xname) is None:
                 continue
             out.append({"rule": R.name, "fork": xname, "times": n, "prefix": prefix, "cycle": path,
                         "sites": first_site[(prefix, xname)][:3]})
